@@ -1,6 +1,7 @@
 import GrinVerif.Gen.Locks
 import GrinVerif.Lemmas.ConcDeadlock
 import GrinVerif.Lemmas.ConcCommit
+import GrinVerif.Lemmas.TxCount
 /-! # C17 — concurrent chain use neither deadlocks nor exposes uncommitted state
 
 Property theorems only. Three layers, tied together as follows.
@@ -15,6 +16,15 @@ Property theorems only. Three layers, tied together as follows.
   (number of events) steps and can only stop with every thread finished.
 * `readers_see_committed` & co: for the commit-protocol model (`Conc.Commit`), every observation
   a reader makes is a state of the sequential commit history.
+
+* `count_eq_open` & co: for the open-transaction counter protocol of `store/src/lmdb.rs`
+  (`Model/TxCount.lean`: `enter_tx`, `TxCounter::drop`, the resize waiter) — the one piece of the
+  `resizing` gate that decides whether a due map resize ever runs: with every counter update one
+  critical section the counter always equals the number of open transactions, hence is 0 whenever
+  all transactions are closed and the waiting resize is enabled; `lost_decrement_witness` is a
+  concrete schedule of the *split* decrement (`load`; `store(c - 1)`, what `TxCounter::drop` would
+  be without the `ENV_MAP` lock) after which the counter is 1 for ever and the system is dead.
+  The tie of this part to the code is the watchdog run `conc txcount`.
 
 NOT covered (named in the evidence): the translation is text-level; the transition system knows
 nothing about thread panics, scheduler fairness (a thread may starve without the system being
@@ -224,6 +234,62 @@ committed state (the history records, with each entry, the base its op started f
 theorem commits_are_serial (s0 : Shared D M) (s : St D M) (log : List (Nat × Obs D M))
     (h : Run s0 s log) : serialHist s0 s.bases s.hist :=
   run_serial s0 s log h
+
+end
+
+/-! ## the open-transaction counter of the LMDB store (`enter_tx` / `TxCounter` / resize waiter) -/
+section
+open TxCount
+
+/-- With atomic updates (each `enter_tx` increment and each `TxCounter::drop` decrement is one
+critical section under the `ENV_MAP` lock — the code as it is), after ANY valid interleaving of
+enters, leaves, resize requests and resizes by any number of threads the counter equals the number
+of open transactions (the sum of the per-thread counts); in particular, whenever every thread has
+closed everything it opened the counter is back to 0, and a pending resize is then enabled (it does
+not wait for ever). -/
+theorem count_eq_open (threads : Nat) (acts : List Act) (s : TxCount.St)
+    (hat : ∀ a ∈ acts, a.atomic = true) (hrun : runChecked (TxCount.init threads) acts = some s) :
+    s.counter = openTotal s ∧
+    (quiescent s = true → s.counter = 0) ∧
+    (quiescent s = true → s.resizing = true → enabled s .resize = true) := by
+  have inv := inv_run acts _ s (inv_init threads) hat hrun
+  have hz : quiescent s = true → s.counter = 0 := by
+    intro hq
+    rw [inv.count]
+    exact total_zero_of_quiescent s.ths hq
+  refine ⟨inv.count, hz, ?_⟩
+  intro hq hr
+  simp [enabled, hr, hz hq]
+
+/-- non-vacuity: three threads, nested and overlapping transactions, a resize requested while two
+are open; it runs as soon as they have closed -/
+example : runChecked (TxCount.init 3)
+      [.enter 0, .enter 1, .enter 0, .request, .leave 0, .enter 0, .leave 1, .leave 0, .leave 0, .resize, .enter 2]
+    = some { counter := 1, resizing := false, resizes := 1,
+             ths := [{}, {}, { opened := 1 }] } := by decide
+
+/-- Kernel-checked witness that a decrement made of a separate load and store loses an update
+when two of them interleave: two readers enter (counter 2), both load 2, both store 1.  The
+schedule is valid (every transition enabled when taken), consists of complete enter/leave pairs
+only (afterwards no thread has anything open and no decrement is half done) — yet the counter is
+1, not 0.  A resize requested afterwards finds the system dead: `enabled` is false for EVERY
+action, so the state can never change again — the resize waits for ever and (the `resizing` flag
+staying set) no thread can ever start a transaction again.  The same schedule with atomic
+`leave`s ends with counter 0 and the resize runs. -/
+theorem lost_decrement_witness :
+    runChecked (TxCount.init 2) [.enter 0, .enter 1, .load 0, .load 1, .store 0, .store 1, .request]
+      = some stuckState ∧
+    quiescent stuckState = true ∧ openTotal stuckState = 0 ∧ stuckState.counter = 1 ∧
+    (∀ a, enabled stuckState a = false) ∧
+    (∀ acts s', runChecked stuckState acts = some s' → s' = stuckState) ∧
+    (∃ s, runChecked (TxCount.init 2) [.enter 0, .enter 1, .leave 0, .leave 1, .request, .resize] = some s ∧
+          s.counter = 0 ∧ s.resizes = 1) := by
+  refine ⟨by decide, by decide, by decide, rfl, stuckState_dead, ?_,
+    ⟨{ counter := 0, resizing := false, resizes := 1, ths := [{}, {}] }, by decide, rfl, rfl⟩⟩
+  intro acts s' h
+  cases acts with
+  | nil => simpa [runChecked] using h.symm
+  | cons a r => simp [runChecked, stuckState_dead a] at h
 
 end
 
